@@ -62,6 +62,7 @@ def main():
     if not args:
         args = sorted(glob.glob(os.path.join(HERE, 'neutral', '*')))
     jobs = []
+    args = [os.path.abspath(a) for a in args]
     for a in args:
         if os.path.isdir(a):
             if os.path.exists(os.path.join(a, 'patch.diff')):
